@@ -8,6 +8,7 @@ one program to every rule (positions are kept, so reports still point at the ori
   c == x / c != x (c a literal)    -> x == c / x != c;  two non-literal operands of ==/!= are ordered by their text
   if not X: A else: B              -> if X: B else: A        (also inside elif chains)
   Class(a, b)                      -> Class(p=a, q=b) for repository classes with their own __init__ (constructions are read by field name)
+  if c: f = self.a else: f = self.b; r = f(x)   -> if c: r = self.a(x) else: r = self.b(x)   (a method value chosen, then called once)
   f(p=a, q=b) / f(a, q=b)          -> f(a, b) when the callee is certain (self.<method defined once in the class family>,
                                       <Class>.<function>, a module-level function of the same module) and the arguments fill the
                                       callee's parameters from the left without gaps
@@ -124,6 +125,61 @@ class Canon(ast.NodeTransformer):
         prev, self.cls = self.cls, node.name
         self.generic_visit(node)
         self.cls = prev
+        return node
+
+    # -- `f = self.a` in one arm, `f = self.b` in the other, then one call `... f(args)`: the call is moved into the arms
+    def _method_value_dispatch(self, stmts):
+        i = 0
+        while i + 1 < len(stmts):
+            st, nxt = stmts[i], stmts[i + 1]
+            if isinstance(st, ast.If) and st.orelse:
+                arms = self._arms(st)
+                name = None
+                if arms is not None:
+                    lasts = [a[-1] for a in arms if a]
+                    if len(lasts) == len(arms) and all(
+                            isinstance(l_, ast.Assign) and len(l_.targets) == 1 and isinstance(l_.targets[0], ast.Name)
+                            and isinstance(l_.value, ast.Attribute) and isinstance(l_.value.value, ast.Name) and l_.value.value.id == "self"
+                            for l_ in lasts) and len({l_.targets[0].id for l_ in lasts}) == 1:
+                        name = lasts[0].targets[0].id
+                if name is not None:
+                    uses = [n for n in ast.walk(nxt) if isinstance(n, ast.Name) and n.id == name]
+                    calls = [c for c in ast.walk(nxt) if isinstance(c, ast.Call) and isinstance(c.func, ast.Name) and c.func.id == name]
+                    later = [n for s_ in stmts[i + 2:] for n in ast.walk(s_) if isinstance(n, ast.Name) and n.id == name]
+                    if len(uses) == 1 and len(calls) == 1 and not later and isinstance(nxt, (ast.Assign, ast.Expr, ast.Return)):
+                        import copy
+                        for a in arms:
+                            target = a[-1].value
+                            new = copy.deepcopy(nxt)
+                            for c in ast.walk(new):
+                                if isinstance(c, ast.Call) and isinstance(c.func, ast.Name) and c.func.id == name:
+                                    c.func = copy.deepcopy(target)
+                            ast.copy_location(new, a[-1])
+                            a[-1] = new
+                        del stmts[i + 1]
+                        self.counts["method-value"] = self.counts.get("method-value", 0) + 1
+                        continue
+            i += 1
+
+    def _arms(self, st):
+        """statement lists of all arms of an if/elif/else chain that ends in an else; None if it does not"""
+        arms = [st.body]
+        cur = st
+        while len(cur.orelse) == 1 and isinstance(cur.orelse[0], ast.If):
+            cur = cur.orelse[0]
+            arms.append(cur.body)
+        if not cur.orelse:
+            return None
+        arms.append(cur.orelse)
+        return arms
+
+    def visit_FunctionDef(self, node):
+        self.generic_visit(node)
+        for n in ast.walk(node):
+            for field in ("body", "orelse", "finalbody"):
+                b = getattr(n, field, None)
+                if isinstance(b, list) and b and isinstance(b[0], ast.stmt):
+                    self._method_value_dispatch(b)
         return node
 
     def visit_If(self, node):
